@@ -3,23 +3,23 @@
 import json
 claimed = {
  "C01": ("one inductive production step (and 2-step recoveries, and the genesis step through the real NewManager) of the real publishBlockInternal, symbolically executed from go/ssa from an arbitrary invariant node state with arbitrary sequencer/executor responses; z3 decides every path", "store = map double (contract of C14), crypto/hash as uninterpreted functions with the standard axioms, batches <= 2 txs; see evidence bounds"),
- "C02": ("the real SyncLoop executed symbolically over every bounded delivery sequence and channel interleaving of the proposer's next blocks, plus a restart through the real NewManager: height monotone, no block applied without both parts, every complete block applied, identical hashes/txs/state roots", "2 blocks, <=2 (3) events per channel; open known finding C02-K1 (equal tx lists)"),
+ "C02": ("the real SyncLoop executed symbolically over every bounded delivery sequence and channel interleaving of the proposer's next two blocks, from an arbitrary synced state and from a first start (real NewManager on an empty store), plus a restart through the real NewManager: height monotone, no block applied without both parts, every complete block applied, identical hashes/txs/state roots", "2 blocks, <=2 (3) events per channel; open known finding C02-K1 (equal tx lists)"),
  "C03": ("every admission gate for headers and signed data (DA ingress, P2P filter, the light-node Validate+Verify contract, execValidate) executed symbolically on an arbitrary third-party item: accepted implies the item carries the genesis proposer's key and verifies under it", "crypto as uninterpreted functions without unforgeability; go-header/libp2p replaced by their call contract; two open known findings on the light-node gate"),
- "C04": ("production step with a crash at every durable-write boundary, restart through the real NewManager, nested second crash, then a crash-free step: restart always succeeds, height/state/blocks agree, committed blocks never replaced, production resumes", "store double with crash counter; cache files not modelled"),
- "C05": ("block application with a crash at every durable-write boundary (nested), restart through the real NewManager, re-delivery in several orders: image consistent, blocks are the proposer's, node converges, DA scan position not past unapplied blobs", "2 blocks; caches empty after restart"),
- "C06": ("the real submitToDA / submitHeadersToDA / submitDataToDA / createSignedDataToSubmit / pendingBase executed symbolically over scripted DA fault sequences, partial acceptance, restarts and a fresh chain of any small initial height; watermark soundness, order, blob identity and signature checked on every path", "<=3 pending items, <=3 DA answers per call; store/DA doubles"),
+ "C04": ("production step with a crash at every durable-write boundary, from an arbitrary invariant state and from a first start on an empty store (any initial height); restart through the real NewManager, nested second crash, then a crash-free step: restart always succeeds, height/state/blocks agree, committed blocks never replaced, production resumes", "store double with crash counter; cache files not modelled"),
+ "C05": ("block application with a crash at every durable-write boundary (nested), from an arbitrary synced state and from a first start on an empty store; restart through the real NewManager, re-delivery in several orders: image consistent, blocks are the proposer's, node converges, DA scan position not past unapplied blobs", "2 blocks; caches empty after restart"),
+ "C06": ("the real submitToDA / submitHeadersToDA / submitDataToDA / createSignedDataToSubmit / pendingBase executed symbolically over scripted DA fault sequences, partial acceptance, restarts and a fresh chain of any small initial height (also restarted before the first acceptance); watermark soundness, order, blob identity and signature checked on every path", "<=2 (3) pending items, <=2 (3) DA answers per call; store/DA doubles"),
  "C07": ("one wake-up of the real DAIncluderLoop from an arbitrary mark/height state, with executor and store faults, plus the restart reload; soundness, monotonicity, order of finalisation, durability and one-step eventuality asserted on every path", "<=2 (3) blocks per step; marks assumed to exist exactly for blobs on the DA layer; two open known findings (equal tx lists alias)"),
- "C08": ("the refusal test for all 64-bit limits/heights/watermarks, and the drain lemma (accepting DA => production resumes) for every mix of up to 3 pending blocks incl. all-empty, on the real code", "<=3 pending blocks; accepting DA double"),
+ "C08": ("the refusal test for all 64-bit limits/heights/watermarks, the drain lemma (accepting DA => production resumes) for every mix of up to 2 (3) pending blocks incl. all-empty, and an outage from launch with a restart on a fresh chain of initial height 1..4, on the real code", "<=3 pending blocks; accepting DA double"),
  "C09": ("the real RetrieveLoop driven over scripted DA heights with every fetch outcome and blob kind: cursor never skips, leaves a height only after success/not-found, retries every defined error, hands exactly the genuine blobs to sync", "2 DA heights, <=2 blobs per height, protobuf runtime trusted"),
- "C10": ("every history of up to 4 (5) queue operations incl. restarts, foreign/empty/over-bound submissions and arbitrary datastore iteration order on the real BatchQueue/Sequencer against a FIFO reference", "open known findings C10-K1..K3 (hash-keyed persistence)"),
+ "C10": ("every history of up to 4 (5) queue operations incl. restarts, foreign/empty/over-bound submissions and arbitrary datastore iteration order on the real BatchQueue/Sequencer against a FIFO reference; two concurrent submitters, or a submitter and a consumer, under every interleaving at datastore-operation granularity with lock waits", "threads are preempted only at datastore operations; open known findings C10-K1..K3 (hash-keyed persistence)"),
  "C11": ("one reaping step against every seen-set/sequencer/crash combination, and one batch take with a crash at every write: nothing new is dropped, nothing is marked seen unless handed over", "open known findings C11-K1/K2 (take window, timestamp drop)"),
  "C12": ("bounded symbolic execution of the real encoders/decoders, hashing and the batch-cursor codec from go/ssa, differential against a frozen reference encoder; z3 decides every path within the stated bounds", "bounds and summaries are listed in the evidence file; gob cache persistence is outside the claim"),
- "C13": ("stop-responsiveness slice only: each loop function started in an arbitrary state and stopped at an arbitrary instant returns without an uninterruptible wait > 1 s and never blocks for ever", "data races and multi-loop interleavings are outside reach of this technique and not claimed"),
+ "C13": ("stop-responsiveness slice only: each loop function started in an arbitrary state and stopped at an arbitrary instant returns without an uninterruptible wait > 1 s, without spinning (bounded number of interpreter steps after the stop request) and never blocks for ever", "data races and multi-loop interleavings are outside reach of this technique and not claimed"),
  "C14": ("all histories of up to 2 (thorough: 3) arbitrary mutators with reopen/crash points on the real DefaultStore over a datastore double, every reader compared with a map model; symbolic execution of the real code from go/ssa, z3 decides every path", "ds.Batching contract assumed (atomic batch, durable put); heights used as keys picked from {1,10,2^40}; badger outside"),
- "C15": ("two instances of the real KVExecutor driven with the same blocks and different finalize/mempool/init/reopen/re-execute schedules return identical state roots; rejected blocks change nothing", "transaction menu of 8 concrete strings"),
+ "C15": ("two instances of the real KVExecutor driven with the same ExecuteTxs calls (incl. replays of earlier blocks) and different finalize (any height, also ahead of execution)/mempool/init/reopen schedules return identical state roots; rejected blocks change nothing", "transaction menu of 8 concrete strings; 2 blocks + one third call"),
  "C16": ("client-side size filter of the real API.SubmitWithOptions executed symbolically against a reference model for all blob lists within the bound and every 64-bit limit", "only the size-filter clause is claimed: wire error identity and JSON payload equality are outside reach (go-jsonrpc/encoding/json are reflection driven)"),
- "C17": ("the real lazy and normal aggregation loops on a symbolic clock with notifications at arbitrary instants: rate limit, service of notifications (incl. during a production), idle interval", "intervals 10/11/25(/40) units, duration grid; see evidence bounds"),
- "C19": ("legacy key derivation kernel executed symbolically for every passphrase of 0..40 bytes (totality, length, determinism)", "only the fallbackDeriveKey clause so far; real Argon2id/AES-GCM/ed25519 are outside"),
+ "C17": ("the real lazy and normal aggregation loops on a symbolic clock with notifications at arbitrary instants: rate limit, service of notifications (incl. during a production), idle interval; the real AggregationLoop started at an arbitrary age of the last block: first block not before one block interval", "intervals 10/11/25(/40) units, duration grid; see evidence bounds"),
+ "C19": ("the real ImportPrivateKey / LoadFileSystemSigner / ExportPrivateKey executed symbolically with Argon2id/AES-GCM/ed25519/JSON/file system as axiomatised uninterpreted functions: right passphrase loads a working, matching signer, any other passphrase fails, legacy files, corrupted fields, export-import migration (in place, over a legacy or foreign file); legacy derivation kernel total for passphrases of 0..40 bytes", "passphrases 0..3 bytes in the sealing harnesses; cryptographic primitives idealised (collision free, authentic), not executed"),
  "C20": ("the real based Sequencer.GetNextBatch / PersistentPendingTxs over every bounded DA content, size limit and restart schedule against the DA-ordered reference list", "open known findings C20-K1/K2; concrete DA heights"),
 }
 checks = []
